@@ -7,6 +7,7 @@ import (
 	"go/token"
 	"go/types"
 	"math"
+	"math/big"
 	"sort"
 	"strings"
 
@@ -27,7 +28,8 @@ func init() {
 		"Decides the shape that the piecewise-linear function's range, clamping and neighbour selection depend on. NewFunc: fewer than two dots, X[i] <= previous X for i >= 1 (the previous X is recorded at the end of every iteration, after the test), Y > maxVal and X > maxVal each lead only to a panic, are evaluated for every dot of a complete range over the argument, and the returned closure is Func{dots: argument}.Get behind all of them. "+
 			"Constants (exact, go/constant): DecimalUnit is a positive integer, maxVal*DecimalUnit <= MaxUint64; Mul is a*b/DecimalUnit and Div is a*DecimalUnit/b on uint64, so with coordinates <= maxVal (NewFunc) and weights <= DecimalUnit the three products of Get (Div's a*DecimalUnit, Mul's a*b twice) are at most maxVal*DecimalUnit and cannot wrap. "+
 			"Get: x below (or at) the first dot's X returns only the first dot's Y, x above (or at) the last dot's X only the last dot's Y, and the interpolation is reachable only behind both complementary edges; the piece index starts at len-2, is replaced by i-1 at the first i of a forward range over all dots with X[i] > x (then the loop is left), every earlier iteration evaluates that test; the result is Mul(Y[p], DecimalUnit-r) + Mul(Y[p+1], r) with r = Div(x-X[p], X[p+1]-X[p]) for that index p (neighbouring dots, weights summing to DecimalUnit). "+
-			"Loops are read as iterations (core.IterationOf): a range or a counted loop stepping by one; NewFunc's per-dot rows need index 0..len-1 (the neighbour comparison X[i] <= X[i-1] may start at 1), Get's search needs every inner index 1..len-2 in ascending order; single-definition temporaries are substituted. "+
+			"NewFunc and Get are decided on an inlined, value-tracking view (c13View): helpers of the package other than Mul/Div are spliced at their call sites with parameters bound to the arguments, so the validation may live in a helper and the piece search in a method or function that returns the index; the piece index is followed as a value (len-2 when the search is exhausted, i-1 on a match at i) whether it is a local assigned before a break or the result of an early return. "+
+			"Loops are read as iterations (core.IterationOf): a range or a counted loop stepping by one, the length possibly hoisted; NewFunc's per-dot rows need index 0..len-1 (the neighbour comparison X[i] <= X[i-1] may start at 1), Get's search needs every inner index 1..len-2 in ascending order, goes on to the next dot only behind an edge implying that the current one is not a candidate, and is left at the first match; single-definition temporaries are substituted. "+
 			"Not decided: the numeric rounding bounds of the statement (at most the larger Y, at least the smaller minus one, within |dY|/10^6+2 of the exact value) - they follow from the decided shape by a pen-and-paper argument (two floor divisions lose less than 1 each, r loses less than one unit of 10^-6) that the checker does not perform; r <= DecimalUnit (no underflow of DecimalUnit-r) relies on x <= X[p+1], which follows from the decided search shape and the upper clamp but is not derived mechanically; the caller mutating the dots slice after NewFunc.",
 		[]string{"uint64 arithmetic wraps only when a product exceeds MaxUint64 (Go spec)", "the caller does not modify the dots slice after NewFunc"},
 		runC31)
@@ -43,6 +45,90 @@ type c31Ctx struct {
 	defs   map[*types.Var]ast.Expr
 	orig   map[ast.Node]ast.Node
 	isDots func(ast.Expr) bool
+	// frames of an inlined view (c13View): the context of the calling frame, what the root calls the dot
+	// list / the Func value, the loops whose variables carry the role "i", the locals that hold a piece index
+	vw       *c13View
+	fr       *c13Frame
+	up       *c31Ctx
+	rootDots func(ast.Expr) bool
+	rootFunc *types.Var
+	loopOf   map[*types.Var]*c13Loop
+	piece    map[*types.Var]bool
+	loops    []*c31Loop
+	prev     *types.Var
+	prevSet  *assignment
+}
+
+// c31Loop is a loop of a frame read as an iteration.
+type c31Loop struct {
+	l  *c13Loop
+	it *core.Iteration
+	x  *c31Ctx
+}
+
+// c31CtxOf: the expression context attached to a frame.
+func c31CtxOf(fr *c13Frame) *c31Ctx { x, _ := fr.aux.(*c31Ctx); return x }
+
+// c31ForFrame builds the context of one frame of a view: parameters bound to arguments are named through
+// the calling frame; locals defined by a spliced call hold a value of the state (not their defining text).
+func c31ForFrame(vw *c13View, fr *c13Frame) *c31Ctx {
+	x := c31New(fr.f)
+	x.vw, x.fr = vw, fr
+	x.loopOf, x.piece = map[*types.Var]*c13Loop{}, map[*types.Var]bool{}
+	if fr.parent != nil {
+		x.up = c31CtxOf(fr.parent)
+	}
+	x.isDots = x.dots
+	for v, d := range x.defs {
+		if call, ok := ast.Unparen(d).(*ast.CallExpr); ok && vw.calleeOf(fr, call) != nil {
+			delete(x.defs, v)
+			x.roles[v] = "p"
+		}
+	}
+	fr.aux = x
+	return x
+}
+
+// funcVal: the expression is the Func value whose dots are interpolated (the root's receiver, or a
+// receiver/parameter bound to it).
+func (x *c31Ctx) funcVal(e ast.Expr) bool {
+	v := varOf(x.f, ast.Unparen(e))
+	if v == nil {
+		return false
+	}
+	if x.rootFunc != nil && v == x.rootFunc {
+		return true
+	}
+	if x.up != nil {
+		if arg, ok := x.fr.bind[v]; ok {
+			return x.up.funcVal(arg)
+		}
+	}
+	return false
+}
+
+// dots: the expression is the dot list (the root's own notion, <Func value>.dots, or a parameter bound to it).
+func (x *c31Ctx) dots(e ast.Expr) bool {
+	e = ast.Unparen(e)
+	if x.rootDots != nil && x.rootDots(e) {
+		return true
+	}
+	if sel, ok := e.(*ast.SelectorExpr); ok && x.fieldName(sel) == c31Dots && x.funcVal(sel.X) {
+		return true
+	}
+	if v := varOf(x.f, e); v != nil && x.up != nil {
+		if arg, ok := x.fr.bind[v]; ok {
+			return x.up.dots(ast.Unparen(x.up.subst(arg)))
+		}
+	}
+	return false
+}
+
+// iterVar marks the loop whose iteration variable is being named.
+func (x *c31Ctx) iterVar(v *types.Var) {
+	if l := x.loopOf[v]; l != nil && x.vw != nil {
+		x.vw.used[l] = true
+	}
 }
 
 func c31New(f *core.FuncInfo) *c31Ctx {
@@ -247,7 +333,16 @@ func (x *c31Ctx) dotIndex(e ast.Expr) string {
 		}
 	case *ast.Ident:
 		if v := varOf(x.f, n); v != nil {
-			return x.elem[v]
+			if x.elem[v] != "" {
+				x.iterVar(v)
+				return x.elem[v]
+			}
+			// a parameter bound to a dot of the calling frame
+			if x.up != nil {
+				if arg, ok := x.fr.bind[v]; ok {
+					return x.up.dotIndex(x.up.subst(arg))
+				}
+			}
 		}
 	}
 	return ""
@@ -260,10 +355,23 @@ func (x *c31Ctx) name(e ast.Expr) string {
 	switch n := e.(type) {
 	case *ast.Ident:
 		if v := varOf(x.f, n); v != nil {
-			return x.roles[v]
+			if r := x.roles[v]; r != "" {
+				x.iterVar(v)
+				return r
+			}
+			if x.up != nil {
+				if arg, ok := x.fr.bind[v]; ok {
+					return x.up.name(arg)
+				}
+			}
 		}
 	case *ast.CallExpr:
 		nm := x.callee(n)
+		if x.vw != nil {
+			if o, isOrig := x.origOf(n).(*ast.CallExpr); isOrig && x.vw.calleeOf(x.fr, o) != nil {
+				return "p" // the value of a spliced helper: a piece index held in the state
+			}
+		}
 		switch {
 		case nm == "builtin.len" && len(n.Args) == 1 && x.isDots != nil && x.isDots(n.Args[0]):
 			return "ndots"
@@ -322,7 +430,27 @@ func c31Form(c string, terms ...string) string {
 	return sb.String() + c
 }
 
-func c31Le(c string, terms ...string) string { return c31Form(c, terms...) + " <= 0" }
+// c31Le is the atom "sum(terms) + c <= 0"; its negation over the integers, "-sum(terms) - c + 1 <= 0", is
+// recorded for the decision tables (c13NegAtom).
+func c31Le(c string, terms ...string) string {
+	a := c31Form(c, terms...) + " <= 0"
+	if _, ok := c13NegOf[a]; !ok {
+		if n, ok := new(big.Int).SetString(strings.TrimPrefix(c, "+"), 10); ok {
+			n.Neg(n)
+			n.Add(n, big.NewInt(1))
+			var neg []string
+			for _, t := range terms {
+				if t[:1] == "+" {
+					neg = append(neg, "-"+t[1:])
+				} else {
+					neg = append(neg, "+"+t[1:])
+				}
+			}
+			c13NegOf[a] = c31Form(n.String(), neg...) + " <= 0"
+		}
+	}
+	return a
+}
 
 func c31ConstInt(v constant.Value) (constant.Value, bool) {
 	if v == nil {
@@ -392,365 +520,478 @@ func runC31(c *core.Ctx) {
 
 	c.Clause("C31.newfunc", func() {
 		c.Need(maxStr != "", "value of maxVal")
-		f := c.Fn(c31Pkg + ".NewFunc")
-		dotsP := f.Param(0)
-		c.Need(dotsP != nil, "NewFunc has a named dots parameter")
-		x := c31New(f)
-		x.isDots = func(e ast.Expr) bool { return varOf(f, ast.Unparen(e)) == dotsP }
-		// the validation loop: an iteration over the dots argument, written as a range or as a counted loop
-		its := c13Loops(f, func(coll ast.Expr) string {
-			if x.isDots(coll) {
-				return "events"
-			}
-			return ""
-		})
-		c.Need(len(its) == 1 && its[0].key != nil, "exactly one loop over the dots argument (range or counted up to len(dots)) with an index variable")
-		it := its[0]
-		loop, key, val := it.stmt, it.key, it.val
-		x.roles[key] = "i"
-		if val != nil {
-			x.elem[val] = "i"
-		}
-		// the remembered previous X
-		var prev *types.Var
-		var prevSet *assignment
-		all := assignments(f)
-		for i := range all {
-			a := &all[i]
-			v := varOf(f, a.LHS)
-			if v == nil || v == key || v == val || a.RHS == nil || c13IsRange(a.Stmt) {
-				continue
-			}
-			if it.contains(a.Stmt) && v.Pos() < loop.Pos() && x.canon(a.RHS) == c31Form("0", "+X[i]") {
-				prev, prevSet = v, a
-			}
-		}
-		// (without such a variable the test must compare the neighbouring dots directly: X[i] <= X[i-1])
-		if prev != nil {
-			delete(x.defs, prev)
-			x.roles[prev] = "prev"
-		}
-		env := &c13Env{f: f, vars: map[*types.Var]string{}, used: map[ast.Stmt]bool{}, alias: map[*types.Var]bool{}, custom: x.name}
-		env.loops = its
-		env.retMsg = "is not the method value Func{dots: <the argument>}.Get: the returned function does not evaluate the validated dot list"
-		// the returned closure
-		var rets []c13Ret
-		for _, pt := range f.ReturnPoints() {
-			r := pt.Node().(*ast.ReturnStmt)
-			ret := c13Ret{pt: pt, stmt: r, kind: c13Unknown}
-			if len(r.Results) == 1 {
-				ret.what = exprStr(r.Results[0])
-				if sel, ok := ast.Unparen(x.subst(r.Results[0])).(*ast.SelectorExpr); ok {
-					o, _ := x.origOf(sel).(*ast.SelectorExpr)
-					if o != nil && f.P.ObjName(f.ObjOf(o)) == c31Pkg+".Func.Get" {
-						recv := ast.Unparen(sel.X)
-						if u, ok := recv.(*ast.UnaryExpr); ok && u.Op == token.AND {
-							recv = ast.Unparen(u.X)
-						}
-						if cl, ok := recv.(*ast.CompositeLit); ok && len(cl.Elts) == 1 {
-							el := cl.Elts[0]
-							if kv, ok := el.(*ast.KeyValueExpr); ok {
-								el = kv.Value
-							}
-							if x.isDots(el) {
-								ret.kind = c13Accept
-							}
-						}
-					}
-				}
-			}
-			rets = append(rets, ret)
-		}
-		// X[i] <= X of the previous dot, for every i >= 1: the previous X is either the recorded variable
-		// (loop from 0, test conditioned on i >= 1) or dots[i-1].X itself (conditioned on i >= 1, or in a
-		// loop that starts at index 1)
-		mono, monoIdx := c31Le("0", "+X[i]", "-prev"), c31Le("0", "+X[i]", "-X[i-1]")
-		iGE1, iNE0 := c31Le("1", "-i"), c13Not(c31Form("0", "+i")+" == 0")
-		monoAlts := []string{c13And(iGE1, monoIdx), c13And(iNE0, monoIdx)}
-		if prev != nil && it.from == 0 {
-			monoAlts = append(monoAlts, c13And(iGE1, mono), c13And(iNE0, mono))
-		}
-		if it.from == 1 {
-			monoAlts = append(monoAlts, monoIdx)
-		}
-		rows := []c13Row{
-			{name: "fewer than two dots", tag: "guard", alts: []string{c31Le("-1", "+ndots")}, breaks: "a list with fewer than two dots is accepted; Get then indexes dots[len-2] out of range"},
-			{name: "X not strictly increasing", tag: "guard", loop: true, fromOne: true, alts: monoAlts,
-				breaks: "a list whose X values repeat or decrease is accepted (Get then divides by x1-x0 = 0 or a wrapped difference), or a valid list is rejected because the first dot is compared with the initial value"},
-			{name: "Y above maxVal", tag: "guard", loop: true, alts: []string{c31Le(maxPlus1, "-Y[i]")}, breaks: "a Y above the supported range is accepted: y*weight in Mul can exceed MaxUint64"},
-			{name: "X above maxVal", tag: "guard", loop: true, alts: []string{c31Le(maxPlus1, "-X[i]")}, breaks: "an X above the supported range is accepted: (x-x0)*DecimalUnit in Div can exceed MaxUint64"},
-		}
-		for i := range rows {
-			rows[i].how = "the edge on which it holds leads only to a panic; the closure is returned only behind the complementary edge"
-			if rows[i].loop {
-				rows[i].how = "evaluated for every dot (every iteration of a complete range over the argument, whose exit dominates the return); the edge on which it holds leads only to a panic"
-			}
-		}
-		r := c13Table(c, env, rets, rows)
-		c.ExpectAtLeast("rejected shapes of the dot list", r.guards, 4)
-		nAcc := 0
-		for _, rt := range rets {
-			if rt.kind == c13Accept {
-				nAcc++
-			}
-		}
-		c.ExpectAtLeast("returns of Func{dots}.Get", nAcc, 1)
-		// prev holds the previous dot's X when the monotonicity test runs
-		usesPrev := false
-		for _, e := range r.rowHit["X not strictly increasing"] {
-			for _, a := range e.alts {
-				usesPrev = usesPrev || strings.Contains(a, "*prev ")
-			}
-		}
-		if prev == nil || !usesPrev {
-			return // the test reads the neighbouring dot itself: nothing is remembered between iterations
-		}
-		head, _ := f.LoopOf(loop)
-		body := c13LoopBody(f, loop)
-		c.Need(head != nil && body != nil, "loop structure of NewFunc")
-		nSets := 0
-		for _, a := range assignsToVar(f, prev) {
-			if a.RHS == nil || a.Pt == prevSet.Pt {
-				continue
-			}
-			// an initial value assigned once before the loop is harmless (the test is conditioned on i >= 1)
-			if before, _ := f.MustPassBefore([]core.Point{a.Pt}, prevSet.Pt); before && enclosingLoop(f, a.Stmt.Pos()) == nil {
-				continue
-			}
-			nSets++
-		}
-		every := !c13BlocksFrom(body, nil, prevSet.Pt.B)[head]
-		c.Check(every && nSets == 0, "NewFunc|previous X recorded on every iteration", "T7 Pairing (loop)", prevSet.Stmt.Pos(), "every iteration ends having stored the current dot's X, and nothing else assigns the variable", "an iteration can reach the next dot without recording its X (or the variable is assigned elsewhere): the monotonicity test compares with an older dot")
-		for _, e := range r.rowHit["X not strictly increasing"] {
-			condPt := core.Point{B: e.b, I: len(e.b.Nodes) - 1}
-			_, found := core.PathQuery{F: f, From: prevSet.Pt, FromAfter: true, Target: core.PointSet(condPt), AvoidEdge: func(b *cfg.Block, s int) bool { return b.Succs[s] == head }}.Find()
-			sameBlockBefore := prevSet.Pt.B == condPt.B && prevSet.Pt.I < condPt.I
-			c.Check(!found && !sameBlockBefore, "NewFunc|monotonicity test before the update", "T2 Dominates (loop)", e.cond.Pos(), "within an iteration the test is never reached after the update: it sees the previous dot's X", "the current dot's X is stored before the test in the same iteration: every dot is compared with itself and all lists are rejected")
-		}
+		c31NewFuncClause(c, maxPlus1)
 	})
 
 	c.Clause("C31.get", func() {
 		c.Need(decStr != "", "value of DecimalUnit")
-		f := c.Fn(c31Pkg + ".Func.Get")
-		recv, xp := f.Recv(), f.Param(0)
-		c.Need(recv != nil && xp != nil, "Func.Get has a named receiver and parameter")
-		x := c31New(f)
-		x.isDots = func(e ast.Expr) bool {
-			sel, ok := ast.Unparen(e).(*ast.SelectorExpr)
-			return ok && x.fieldName(sel) == c31Dots && varOf(f, sel.X) == recv
+		c31GetClause(c, decStr)
+	})
+}
+
+// c31Inline: the helpers of the package are spliced into the views of NewFunc and Get, except Mul and
+// Div, which are atoms of the interpolation (decided by C31.muldiv).
+func c31Inline(root *core.FuncInfo) func(*core.FuncInfo) bool {
+	return func(g *core.FuncInfo) bool {
+		return g.Pkg == root.Pkg && g.Name != c31Pkg+".Mul" && g.Name != c31Pkg+".Div"
+	}
+}
+
+// c31NewFuncClause decides the validation of the dot list on the inlined view of NewFunc (the tests may
+// live in NewFunc or in helpers it calls).
+func c31NewFuncClause(c *core.Ctx, maxPlus1 string) {
+	f := c.Fn(c31Pkg + ".NewFunc")
+	dotsP := f.Param(0)
+	c.Need(dotsP != nil, "NewFunc has a named dots parameter")
+	mkEnv := func(vw *c13View, fr *c13Frame) *c13Env {
+		x := c31ForFrame(vw, fr)
+		g := fr.f
+		if fr.parent == nil {
+			x.rootDots = func(e ast.Expr) bool { return varOf(f, e) == dotsP }
 		}
-		x.roles[xp] = "x"
-		// the search loop
-		// a forward scan of the dot indexes: a range over f.dots, or a counted loop from 0 or 1 up to
-		// (excluding) len(dots) or len(dots)-1. What matters below is the set of indexes it visits in
-		// ascending order - every inner dot 1..len-2 - not how the loop is spelled.
-		var loops []ast.Stmt
-		f.InspectOwn(func(n ast.Node) bool {
+		env := c13BareEnv(vw, fr)
+		env.custom = x.name
+		// the validation loops: iterations over the dot list, written as a range or as a counted loop
+		env.loops = c13Loops(g, func(coll ast.Expr) string {
+			if x.dots(coll) {
+				return "events"
+			}
+			return ""
+		})
+		for _, l := range env.loops {
+			l.env = env
+			if l.key != nil {
+				x.roles[l.key] = "i"
+				x.loopOf[l.key] = l
+			}
+			if l.val != nil {
+				x.elem[l.val] = "i"
+				x.loopOf[l.val] = l
+			}
+		}
+		// the remembered previous X: declared outside a loop over the dots, assigned the current dot's X inside
+		// (without such a variable the test must compare the neighbouring dots directly: X[i] <= X[i-1])
+		all := assignments(g)
+		for i := range all {
+			a := &all[i]
+			v := varOf(g, a.LHS)
+			if v == nil || a.RHS == nil || c13IsRange(a.Stmt) || x.loopOf[v] != nil {
+				continue
+			}
+			for _, l := range env.loops {
+				if l.contains(a.Stmt) && v.Pos() < l.stmt.Pos() && x.canon(a.RHS) == c31Form("0", "+X[i]") {
+					x.prev, x.prevSet = v, a
+				}
+			}
+		}
+		if x.prev != nil {
+			delete(x.defs, x.prev)
+			x.roles[x.prev] = "prev"
+		}
+		return env
+	}
+	vw := c13NewView(f, c31Inline(f), mkEnv)
+	vw.build()
+	rx := c31CtxOf(vw.root)
+	// the returned closure
+	nAcc := 0
+	accSeen := map[*ast.ReturnStmt]bool{}
+	kindOf := func(o *c13Outcome) (int, string) {
+		if o.panic {
+			return c13Panic, ""
+		}
+		if o.stmt == nil || len(o.stmt.Results) != 1 {
+			return c13Unknown, ""
+		}
+		if sel, ok := ast.Unparen(rx.subst(o.stmt.Results[0])).(*ast.SelectorExpr); ok {
+			if orig, _ := rx.origOf(sel).(*ast.SelectorExpr); orig != nil && f.P.ObjName(f.ObjOf(orig)) == c31Pkg+".Func.Get" {
+				recv := ast.Unparen(sel.X)
+				if u, ok := recv.(*ast.UnaryExpr); ok && u.Op == token.AND {
+					recv = ast.Unparen(u.X)
+				}
+				if cl, ok := recv.(*ast.CompositeLit); ok && len(cl.Elts) == 1 {
+					el := cl.Elts[0]
+					if kv, ok := el.(*ast.KeyValueExpr); ok {
+						el = kv.Value
+					}
+					if rx.dots(el) {
+						if !accSeen[o.stmt] {
+							accSeen[o.stmt] = true
+							nAcc++
+						}
+						return c13Accept, ""
+					}
+				}
+			}
+		}
+		return c13Unknown, ""
+	}
+	hasPrev0, from1 := false, false
+	for _, fr := range vw.frames {
+		for _, l := range fr.env.loops {
+			if l.from == 1 {
+				from1 = true
+			}
+			if l.from == 0 && c31CtxOf(fr).prev != nil {
+				hasPrev0 = true
+			}
+		}
+	}
+	// X[i] <= X of the previous dot, for every i >= 1: the previous X is either the recorded variable
+	// (loop from 0, test conditioned on i >= 1) or dots[i-1].X itself (conditioned on i >= 1, or in a
+	// loop that starts at index 1)
+	mono, monoIdx := c31Le("0", "+X[i]", "-prev"), c31Le("0", "+X[i]", "-X[i-1]")
+	iGE1, iNE0 := c31Le("1", "-i"), c13Not(c31Form("0", "+i")+" == 0")
+	monoAlts := []string{c13And(iGE1, monoIdx), c13And(iNE0, monoIdx)}
+	if hasPrev0 {
+		monoAlts = append(monoAlts, c13And(iGE1, mono), c13And(iNE0, mono))
+	}
+	if from1 {
+		monoAlts = append(monoAlts, monoIdx)
+	}
+	monoRow := "X not strictly increasing"
+	rows := []c13Row{
+		{name: "fewer than two dots", tag: "guard", alts: []string{c31Le("-1", "+ndots")}, breaks: "a list with fewer than two dots is accepted; Get then indexes dots[len-2] out of range"},
+		{name: monoRow, tag: "guard", loop: true, fromOne: true, alts: monoAlts,
+			breaks: "a list whose X values repeat or decrease is accepted (Get then divides by x1-x0 = 0 or a wrapped difference), or a valid list is rejected because the first dot is compared with the initial value"},
+		{name: "Y above maxVal", tag: "guard", loop: true, alts: []string{c31Le(maxPlus1, "-Y[i]")}, breaks: "a Y above the supported range is accepted: y*weight in Mul can exceed MaxUint64"},
+		{name: "X above maxVal", tag: "guard", loop: true, alts: []string{c31Le(maxPlus1, "-X[i]")}, breaks: "an X above the supported range is accepted: (x-x0)*DecimalUnit in Div can exceed MaxUint64"},
+	}
+	for i := range rows {
+		rows[i].how = "the edge on which it holds leads only to a panic; the closure is returned only behind an edge implying the opposite"
+		if rows[i].loop {
+			rows[i].how = "evaluated for every dot (every iteration of a complete loop over the argument, whose exit every returning path passes); the edge on which it holds leads only to a panic"
+		}
+	}
+	r := c13Table(c, vw, rows, c13TableOpt{kindOf: kindOf, extras: true, retMsg: "is not the method value Func{dots: <the argument>}.Get: the returned function does not evaluate the validated dot list"})
+	c.ExpectAtLeast("rejected shapes of the dot list", r.guards, 4)
+	c.ExpectAtLeast("returns of Func{dots}.Get", nAcc, 1)
+	// the recorded variable holds the previous dot's X when the monotonicity test runs (when the test
+	// reads the neighbouring dot itself, nothing is remembered between iterations)
+	for _, fr := range vw.frames {
+		x := c31CtxOf(fr)
+		if x.prev == nil {
+			continue
+		}
+		g := fr.f
+		condBlocks := map[*cfg.Block]ast.Expr{}
+		for _, e := range r.rowHit[monoRow] {
+			if e.from.fr != fr {
+				continue
+			}
+			for _, a := range vw.ctxAtoms(e) {
+				if strings.Contains(a, "*prev ") {
+					condBlocks[e.from.b] = e.cond
+				}
+			}
+		}
+		if len(condBlocks) == 0 {
+			continue
+		}
+		var loop ast.Stmt
+		for _, l := range fr.env.loops {
+			if l.contains(x.prevSet.Stmt) {
+				loop = l.stmt
+			}
+		}
+		c.Need(loop != nil, "the loop that records the previous X")
+		head, _ := g.LoopOf(loop)
+		body := c13LoopBody(g, loop)
+		c.Need(head != nil && body != nil, "loop structure of NewFunc")
+		nSets := 0
+		for _, a := range assignsToVar(g, x.prev) {
+			if a.RHS == nil || a.Pt == x.prevSet.Pt {
+				continue
+			}
+			// an initial value assigned once before the loop is harmless (the test is conditioned on i >= 1)
+			if before, _ := g.MustPassBefore([]core.Point{a.Pt}, x.prevSet.Pt); before && enclosingLoop(g, a.Stmt.Pos()) == nil {
+				continue
+			}
+			nSets++
+		}
+		every := !c13BlocksFrom(body, nil, x.prevSet.Pt.B)[head]
+		c.Check(every && nSets == 0, "NewFunc|previous X recorded on every iteration", "T7 Pairing (loop)", x.prevSet.Stmt.Pos(), "every iteration ends having stored the current dot's X, and nothing else assigns the variable", "an iteration can reach the next dot without recording its X (or the variable is assigned elsewhere): the monotonicity test compares with an older dot")
+		for cb, cond := range condBlocks {
+			condPt := core.Point{B: cb, I: len(cb.Nodes) - 1}
+			_, found := core.PathQuery{F: g, From: x.prevSet.Pt, FromAfter: true, Target: core.PointSet(condPt), AvoidEdge: func(b *cfg.Block, s int) bool { return b.Succs[s] == head }}.Find()
+			sameBlockBefore := x.prevSet.Pt.B == condPt.B && x.prevSet.Pt.I < condPt.I
+			c.Check(!found && !sameBlockBefore, "NewFunc|monotonicity test before the update", "T2 Dominates (loop)", cond.Pos(), "within an iteration the test is never reached after the update: it sees the previous dot's X", "the current dot's X is stored before the test in the same iteration: every dot is compared with itself and all lists are rejected")
+		}
+	}
+}
+
+// c31GetClause decides clamping, piece search and interpolation on the inlined view of Func.Get. The
+// piece index is followed as a value of the view's state: whether it is a local assigned in a loop that
+// is left with break, or the result of a helper that returns from inside its loop, the interpolation is
+// reached with the piece "len-2" (search exhausted) or "i-1" (match at index i).
+func c31GetClause(c *core.Ctx, decStr string) {
+	f := c.Fn(c31Pkg + ".Func.Get")
+	recv, xp := f.Recv(), f.Param(0)
+	c.Need(recv != nil && xp != nil, "Func.Get has a named receiver and parameter")
+	mkEnv := func(vw *c13View, fr *c13Frame) *c13Env {
+		x := c31ForFrame(vw, fr)
+		g := fr.f
+		if fr.parent == nil {
+			x.rootFunc = recv
+			x.roles[xp] = "x"
+		}
+		env := c13BareEnv(vw, fr)
+		env.custom = x.name
+		// a forward scan of the dot indexes: a range over the dots, or a counted loop. What matters below is
+		// the set of indexes it visits in ascending order, not how the loop is spelled.
+		var stmts []ast.Stmt
+		g.InspectOwn(func(n ast.Node) bool {
 			switch n.(type) {
 			case *ast.RangeStmt, *ast.ForStmt:
-				loops = append(loops, n.(ast.Stmt))
+				stmts = append(stmts, n.(ast.Stmt))
 			}
 			return true
 		})
-		c.Need(len(loops) == 1, "Get contains exactly one loop (the piece search)")
-		loop := loops[0]
-		it, okIt := core.IterationOf(f, loop, nil)
-		c.Need(okIt && it.Index != nil && it.Body != nil, "the search loop is a range with an index variable or a counted loop stepping by one (other search strategies are not recognised)")
-		key, val := it.Index, it.Value
-		x.roles[key] = "i"
-		if val != nil {
-			x.elem[val] = "i"
-		}
-		lo, hi := 0, ""
-		if it.Counted {
-			fs := loop.(*ast.ForStmt)
-			as, _ := fs.Init.(*ast.AssignStmt)
-			c.Need(as != nil && len(as.Rhs) == 1 && it.Bound != nil, "init clause and bound of the counted search loop")
-			switch {
-			case it.FromZero:
-			case core.IsConstInt(f.Info(), as.Rhs[0], 1):
-				lo = 1
-			default:
-				lo = -1
-			}
-			hi = x.canon(it.Bound)
-			for _, a := range assignsToVar(f, key) {
-				if it.Body.Pos() <= a.Stmt.Pos() && a.Stmt.End() <= it.Body.End() {
-					lo = -1 // the index is modified inside the body: the visited set is unknown
+		for _, ls := range stmts {
+			l := &c13Loop{stmt: ls, env: env}
+			cl := &c31Loop{l: l, x: x}
+			if it, ok := c13IterationOf(g, ls, nil); ok && it.Body != nil {
+				cl.it = it
+				l.body, l.key, l.val = it.Body, it.Index, it.Value
+				if l.key != nil {
+					x.roles[l.key] = "i"
+					x.loopOf[l.key] = l
+				}
+				if l.val != nil {
+					x.elem[l.val] = "i"
+					x.loopOf[l.val] = l
 				}
 			}
-		} else {
-			rs := loop.(*ast.RangeStmt)
-			c.Need(rs.Tok == token.DEFINE && x.isDots(rs.X), "the range of the search loop is f.dots")
-			hi = c31Form("0", "+ndots")
+			env.loops = append(env.loops, l)
+			x.loops = append(x.loops, cl)
 		}
-		covers := (lo == 0 || lo == 1) && (hi == c31Form("0", "+ndots") || hi == c31Form("-1", "+ndots"))
-		c.Check(covers, "Get|search visits every inner dot", "T7 Pairing (loop)", loop.Pos(),
-			"the search visits the indexes from 0 or 1 up to len(dots)-1 or len(dots)-2 in ascending order: every inner dot 1..len-2 is a candidate",
-			"the search loop does not visit every inner dot 1..len(dots)-2 in ascending order (starts at "+fmt.Sprint(lo)+", bound "+hi+"): the first dot with X > x may be missed and x is interpolated on a piece that does not contain it")
-		// the piece index: the integer local assigned more than once
-		var piece *types.Var
-		nPiece := 0
+		// the piece index: an integer local assigned more than once that is not a loop variable
 		cnt := map[*types.Var]int{}
-		for _, a := range assignments(f) {
-			if v := varOf(f, a.LHS); v != nil && v != key && v != val && !c13IsRange(a.Stmt) {
-				cnt[v]++
+		for _, a := range assignments(g) {
+			v := varOf(g, a.LHS)
+			if v == nil || x.loopOf[v] != nil || c13IsRange(a.Stmt) || c13ReturnedVar(g, v) {
+				continue
 			}
+			if b, ok := v.Type().Underlying().(*types.Basic); !ok || b.Info()&types.IsInteger == 0 {
+				continue
+			}
+			if a.Tok == token.INC || a.Tok == token.DEC {
+				cnt[v] -= 100
+			}
+			cnt[v]++
 		}
+		var pieces []*types.Var
 		for v, n := range cnt {
 			if n > 1 {
-				piece = v
-				nPiece++
+				pieces = append(pieces, v)
 			}
 		}
-		c.Need(nPiece == 1, "exactly one local variable assigned more than once (the piece index)")
-		x.roles[piece] = "p"
+		sort.Slice(pieces, func(i, j int) bool { return pieces[i].Pos() < pieces[j].Pos() })
+		for i, v := range pieces {
+			x.piece[v] = true
+			x.roles[v] = "p"
+			if i > 0 {
+				x.roles[v] = fmt.Sprintf("p#%d", i+1)
+			}
+		}
+		return env
+	}
+	vw := c13NewView(f, c31Inline(f), mkEnv)
+	vw.valuer = func(fr *c13Frame, e ast.Expr) string { return c31CtxOf(fr).canon(e) }
+	vw.track = func(fr *c13Frame, v *types.Var) bool { return c31CtxOf(fr).piece[v] }
+	vw.build()
+	rx := c31CtxOf(vw.root)
+	entry := []*c13Node{vw.entry}
 
-		env := &c13Env{f: f, vars: map[*types.Var]string{}, used: map[ast.Stmt]bool{}, alias: map[*types.Var]bool{}, custom: x.name}
-		firstY, lastY := c31Form("0", "+Y[0]"), c31Form("0", "+Y[ndots-1]")
-		classify := func(reject, skip string) ([]c13Ret, int) {
-			var rets []c13Ret
-			n := 0
-			for _, pt := range f.ReturnPoints() {
-				r := pt.Node().(*ast.ReturnStmt)
-				ret := c13Ret{pt: pt, stmt: r, kind: c13Unknown}
-				if len(r.Results) == 1 {
-					ret.what = exprStr(r.Results[0])
-					switch x.canon(r.Results[0]) {
-					case reject:
-						ret.kind = c13Reject
-						n++
-					case skip:
-						ret.kind = c13Skip
-					default:
-						ret.kind = c13Accept
-					}
-				}
-				rets = append(rets, ret)
-			}
-			return rets, n
-		}
-		rets, n1 := classify(firstY, lastY)
-		c13Table(c, env, rets, []c13Row{{name: "x before the first dot", tag: "clamp",
-			alts:   []string{c31Le("1", "+x", "-X[0]"), c31Le("0", "+x", "-X[0]")},
-			how:    "the edge x < X[0] (or <=) reaches only `return dots[0].Y`, and the interpolation lies behind the complementary edge",
-			breaks: "an argument before the first dot does not yield the first dot's Y (x - x0 wraps in the interpolation)"}})
-		rets, n2 := classify(lastY, firstY)
-		c13Table(c, env, rets, []c13Row{{name: "x after the last dot", tag: "clamp",
-			alts:   []string{c31Le("1", "-x", "+X[ndots-1]"), c31Le("0", "-x", "+X[ndots-1]")},
-			how:    "the edge x > X[len-1] (or >=) reaches only `return dots[len-1].Y`, and the interpolation lies behind the complementary edge",
-			breaks: "an argument after the last dot does not yield the last dot's Y (the last piece is extrapolated: the ratio exceeds DecimalUnit and DecimalUnit-ratio wraps)"}})
-		c.ExpectAtLeast("returns of the first dot's Y", n1, 1)
-		c.ExpectAtLeast("returns of the last dot's Y", n2, 1)
-
-		// piece search
-		var init, set *assignment
-		as := assignsToVar(f, piece)
-		for i := range as {
-			a := &as[i]
-			if it.Body.Pos() <= a.Stmt.Pos() && a.Stmt.End() <= it.Body.End() {
-				set = a
-			} else {
-				init = a
+	// the search loop, in Get itself or in a helper spliced into the view
+	var loops []*c31Loop
+	seenLoop := map[ast.Stmt]bool{}
+	for _, fr := range vw.frames {
+		for _, cl := range c31CtxOf(fr).loops {
+			if !seenLoop[cl.l.stmt] {
+				seenLoop[cl.l.stmt] = true
+				loops = append(loops, cl)
 			}
 		}
-		c.Need(len(as) == 2 && init != nil && set != nil && init.RHS != nil && set.RHS != nil, "the piece index has one initialisation outside and one assignment inside the loop")
-		okInit, _ := f.MustPassBefore([]core.Point{init.Pt}, set.Pt)
-		c.Check(okInit && x.canon(init.RHS) == c31Form("-2", "+ndots"), "Get|piece defaults to the last one", "T8 (search)", init.Stmt.Pos(), "the piece index starts at len(dots)-2 before the search", "the piece index does not start at len(dots)-2 (got "+x.canon(init.RHS)+"): for x beyond all interior dots a wrong pair of dots is interpolated")
-		c.Check(set.Tok == token.ASSIGN && x.canon(set.RHS) == c31Form("-1", "+i"), "Get|piece is the one left of the match", "T8 (search)", set.Stmt.Pos(), "on a match at index i the piece index becomes i-1", "the matched index i is not turned into piece i-1 (got "+x.canon(set.RHS)+"): the dots used do not bracket x")
-		head, done := f.LoopOf(loop)
-		body := c13LoopBody(f, loop)
-		c.Need(head != nil && done != nil && body != nil, "loop structure of Get")
-		// conditions on the way from the loop body to the assignment
-		pr := preds(f)
-		var atoms []string
-		var condBlocks []*cfg.Block
-		walkOK := true
-		for b := set.Pt.B; b != body; {
-			ps := pr[b]
-			if len(ps) != 1 {
-				walkOK = false
-				break
-			}
-			pb := ps[0]
-			for s, sb := range pb.Succs {
-				if sb == b && f.BranchCond(pb) != nil {
-					for _, ft := range f.EdgeFacts(pb, s) {
-						atoms = append(atoms, env.atomOf(ft).String())
-					}
-					condBlocks = append(condBlocks, pb)
-				}
-			}
-			b = pb
-		}
-		strict, weak := c31Le("1", "+x", "-X[i]"), c31Le("0", "+x", "-X[i]")
-		iGE1 := map[string]bool{c31Le("1", "-i"): true, c13Not(c31Form("0", "+i") + " == 0"): true}
-		allowed := map[string]bool{c31Le("2", "+i", "-ndots"): true}
-		hasStrict, hasWeak, hasI, extra := false, false, false, ""
-		for _, a := range atoms {
-			switch {
-			case a == strict:
-				hasStrict = true
-			case a == weak:
-				hasWeak = true
-			case iGE1[a]:
-				hasI = true
-			case allowed[a]:
-			default:
-				extra = a
-			}
-		}
+	}
+	c.Need(len(loops) == 1, "Get contains exactly one loop (the piece search), in its own body or in a helper it calls")
+	sl := loops[0]
+	it, lx, loop := sl.it, sl.x, sl.l.stmt
+	g, lf := lx.f, lx.fr
+	c.Need(it != nil && it.Index != nil && it.Body != nil, "the search loop is a range with an index variable or a counted loop stepping by one (other search strategies are not recognised)")
+	lo, hi := 0, ""
+	if it.Counted {
+		init := c13LoopInit(g, loop, it.Index)
+		c.Need(init != nil && it.Bound != nil, "init clause and bound of the counted search loop")
 		switch {
-		case !walkOK:
-			c.Undecided("Get|match condition", "T8 (search)", set.Stmt.Pos(), "the assignment of the piece index is reached through merging control flow: the match condition cannot be read")
-		case extra != "":
-			c.Undecided("Get|match condition", "T8 (search)", set.Stmt.Pos(), "the match is additionally conditioned on `"+extra+"`, which the rule cannot show to be redundant: some dot with X > x may be passed over")
+		case it.FromZero:
+		case core.IsConstInt(g.Info(), init, 1):
+			lo = 1
 		default:
-			c.Check(hasStrict || hasWeak && (hasI || lo == 1), "Get|match condition", "T8 (search)", set.Stmt.Pos(), "the piece index is replaced only on the edge where X[i] > x (or X[i] >= x with i >= 1)", "the piece index is not chosen by X[i] > x for the current dot i: the interpolated dots do not bracket x")
+			lo = -1
 		}
-		// first match wins, earlier dots are all tested, the range is forward over all dots
-		leaves := !c13BlocksFrom(set.Pt.B, nil, nil)[head]
-		c.Check(leaves, "Get|first match ends the search", "T8 (search)", set.Stmt.Pos(), "after the assignment the loop is left: the first dot with X > x determines the piece", "the search continues after a match: a later dot overrides the piece and x is interpolated on a piece that does not contain it")
-		tested := len(condBlocks) > 0
-		for _, cb := range condBlocks {
-			if cb != body && c13BlocksFrom(body, nil, cb)[head] {
-				tested = false
+		hi = lx.canon(it.Bound)
+		for _, a := range assignsToVar(g, it.Index) {
+			if it.Body.Pos() <= a.Stmt.Pos() && a.Stmt.End() <= it.Body.End() {
+				lo = -1 // the index is modified inside the body: the visited set is unknown
 			}
 		}
-		okDone := true
-		for _, pb := range pr[done] {
-			if pb != head && pb != set.Pt.B {
-				okDone = false
-			}
-		}
-		c.Check(tested && okDone, "Get|every dot up to the match is tested", "T7 Pairing (loop)", loop.Pos(), "every iteration evaluates the match condition and the loop ends only by exhaustion or after the assignment", "an iteration can skip the match test, or the loop can end without a match before all dots were seen: the first dot with X > x may be missed")
+	} else {
+		rs := loop.(*ast.RangeStmt)
+		c.Need(rs.Tok == token.DEFINE && lx.dots(rs.X), "the range of the search loop is the dot list")
+		hi = c31Form("0", "+ndots")
+	}
+	covers := (lo == 0 || lo == 1) && (hi == c31Form("0", "+ndots") || hi == c31Form("-1", "+ndots"))
+	c.Check(covers, "Get|search visits every inner dot", "T7 Pairing (loop)", loop.Pos(),
+		"the search visits the indexes from 0 or 1 up to len(dots)-1 or len(dots)-2 in ascending order: every inner dot 1..len-2 is a candidate",
+		"the search loop does not visit every inner dot 1..len(dots)-2 in ascending order (starts at "+fmt.Sprint(lo)+", bound "+hi+"): the first dot with X > x may be missed and x is interpolated on a piece that does not contain it")
 
-		// interpolation
-		var interp *ast.ReturnStmt
-		nInterp := 0
-		for _, rt := range rets {
-			if rt.kind == c13Accept {
-				interp = rt.stmt
-				nInterp++
+	// clamps
+	firstY, lastY := c31Form("0", "+Y[0]"), c31Form("0", "+Y[ndots-1]")
+	canonOf := func(o *c13Outcome) string {
+		if o.val.kind == c13VExpr {
+			return o.val.origin // the value the view followed to the return (a result variable included)
+		}
+		if o.stmt == nil || len(o.stmt.Results) != 1 {
+			return ""
+		}
+		vw.cur = o.st
+		return rx.canon(o.stmt.Results[0])
+	}
+	classify := func(reject, skip string, n *int) func(*c13Outcome) (int, string) {
+		seen := map[*ast.ReturnStmt]bool{}
+		return func(o *c13Outcome) (int, string) {
+			if o.panic {
+				return c13Panic, ""
+			}
+			switch canonOf(o) {
+			case "":
+				return c13Unknown, ""
+			case reject:
+				if !seen[o.stmt] {
+					seen[o.stmt] = true
+					*n++
+				}
+				return c13Reject, ""
+			case skip:
+				return c13Skip, ""
+			}
+			return c13Accept, ""
+		}
+	}
+	n1, n2 := 0, 0
+	c13Table(c, vw, []c13Row{{name: "x before the first dot", tag: "clamp",
+		alts:   []string{c31Le("1", "+x", "-X[0]"), c31Le("0", "+x", "-X[0]")},
+		how:    "the edge x < X[0] (or <=) reaches only `return dots[0].Y`, and the interpolation lies behind an edge implying the opposite",
+		breaks: "an argument before the first dot does not yield the first dot's Y (x - x0 wraps in the interpolation)"}}, c13TableOpt{kindOf: classify(firstY, lastY, &n1), extras: true})
+	c13Table(c, vw, []c13Row{{name: "x after the last dot", tag: "clamp",
+		alts:   []string{c31Le("1", "-x", "+X[ndots-1]"), c31Le("0", "-x", "+X[ndots-1]")},
+		how:    "the edge x > X[len-1] (or >=) reaches only `return dots[len-1].Y`, and the interpolation lies behind an edge implying the opposite",
+		breaks: "an argument after the last dot does not yield the last dot's Y (the last piece is extrapolated: the ratio exceeds DecimalUnit and DecimalUnit-ratio wraps)"}}, c13TableOpt{kindOf: classify(lastY, firstY, &n2), extras: true})
+	c.ExpectAtLeast("returns of the first dot's Y", n1, 1)
+	c.ExpectAtLeast("returns of the last dot's Y", n2, 1)
+
+	// the interpolation and the piece it is reached with
+	var interp []*c13Node
+	interpStmts := map[*ast.ReturnStmt]bool{}
+	for _, n := range vw.outcomes() {
+		if n.outcome.panic {
+			continue
+		}
+		if cn := canonOf(n.outcome); cn != firstY && cn != lastY {
+			interp = append(interp, n)
+			interpStmts[n.outcome.stmt] = true
+		}
+	}
+	c.Need(len(interpStmts) == 1 && len(interp) > 0, "exactly one return besides the two clamps (the interpolation)")
+	interpStmt := interp[0].outcome.stmt
+	defV, matchV := c31Form("-2", "+ndots"), c31Form("-1", "+i")
+	inDef, inMatch, inAny := map[*c13Node]bool{}, map[*c13Node]bool{}, map[*c13Node]bool{}
+	other := ""
+	for _, n := range interp {
+		var vals []string
+		for w, v := range n.outcome.st.vars {
+			if v.kind == c13VExpr && (rx.roles[w] == "p" || strings.HasPrefix(rx.roles[w], "p#")) {
+				vals = append(vals, v.origin)
 			}
 		}
-		c.Need(nInterp == 1, "exactly one return besides the two clamps (the interpolation)")
-		num := c31Form("0", "+x", "-X[p]")
-		den := c31Form("0", "+X[p+1]", "-X[p]")
-		div := "Div(" + num + ", " + den + ")"
-		mul := func(a, b string) string {
-			if b < a {
-				a, b = b, a
+		for _, v := range n.outcome.st.calls {
+			if v.kind == c13VExpr {
+				vals = append(vals, v.origin)
 			}
-			return "Mul(" + a + ", " + b + ")"
 		}
-		want := c31Form("0", "+"+mul(c31Form("0", "+Y[p]"), c31Form(decStr, "-"+div)), "+"+mul(c31Form("0", "+Y[p+1]"), c31Form("0", "+"+div)))
-		got := x.canon(interp.Results[0])
-		c.Check(got == want, "Get|interpolation between neighbouring dots", "expression shape", interp.Pos(),
-			"the result is Mul(Y[p], DecimalUnit-r) + Mul(Y[p+1], r) with r = Div(x-X[p], X[p+1]-X[p]): neighbouring dots p and p+1, weights summing to DecimalUnit, coordinates <= maxVal as first Mul/Div operands",
-			"the result is not the weighted sum of the two neighbouring dots' Y with r = (x-X[p])/(X[p+1]-X[p]) (got "+got+"): values between dots are not the linear interpolation")
-		ipt, _ := f.PointOf(interp)
-		okAfter, path := mustPassBlockBefore(f, done, ipt)
-		c.Check(okAfter, "Get|interpolation after the search", "T2 Dominates (loop)", interp.Pos(), "the interpolation uses the piece index only after the search loop has ended", "the interpolation is reachable before the search has ended: "+f.DescribePath(path))
-	})
+		if len(vals) != 1 {
+			c.Undecided("Get|piece index", "T8 (search)", interpStmt.Pos(), fmt.Sprintf("the interpolation is reached with %d followed piece values (expected one local or helper result that holds the piece index): the searched piece cannot be read", len(vals)))
+			return
+		}
+		inAny[n] = true
+		switch vals[0] {
+		case defV:
+			inDef[n] = true
+		case matchV:
+			inMatch[n] = true
+		default:
+			other = vals[0]
+		}
+	}
+	c.Check(other == "" && len(inDef) > 0, "Get|piece defaults to the last one", "T8 (search)", interpStmt.Pos(), "when the search finds no dot the piece index is len(dots)-2", "the piece index without a match is not len(dots)-2 (got "+other+"): for x beyond all interior dots a wrong pair of dots is interpolated")
+	c.Check(other == "" && len(inMatch) > 0, "Get|piece is the one left of the match", "T8 (search)", interpStmt.Pos(), "on a match at index i the piece index becomes i-1", "the matched index i is not turned into piece i-1 (got "+other+"): the dots used do not bracket x")
+	head, done, body := c13LoopBlocks(g, loop)
+	c.Need(head != nil && done != nil && body != nil, "loop structure of the piece search")
+	atHead := func(n *c13Node) bool { return n.fr == lf && n.b == head && n.i == 0 }
+	bodyN := vw.nodesAt(lf, body)
+	strict, weak := c31Le("1", "+x", "-X[i]"), c31Le("0", "+x", "-X[i]")
+	iGE1, iNE0 := c31Le("1", "-i"), c13Not(c31Form("0", "+i")+" == 0")
+	inner := c31Le("2", "+i", "-ndots")
+	isMatch := func(e *c13VEdge) bool {
+		if e.kind != c13EdgeBranch || !c13HasLoop(e.loops, sl.l) {
+			return false
+		}
+		ctx := map[string]bool{}
+		for _, a := range vw.ctxAtoms(e) {
+			ctx[a] = true
+		}
+		return ctx[strict] || ctx[weak] && (ctx[iGE1] || ctx[iNE0] || lo == 1)
+	}
+	n, path := vw.search(bodyN, isMatch, vw.atBlock(lf, head), func(n *c13Node) bool { return inMatch[n] })
+	c.Check(n == nil, "Get|match condition", "T8 (search)", loop.Pos(), "within an iteration the piece i-1 is chosen only behind the edge where X[i] > x (or X[i] >= x with i >= 1)", "the piece i-1 can be chosen without X[i] > x for the current dot i (path "+vw.describe(path, n)+"): the interpolated dots do not bracket x")
+	// first match wins
+	leaves := true
+	wherePos := loop.Pos()
+	for _, e := range vw.branchEdges() {
+		if !isMatch(e) {
+			continue
+		}
+		if m, _ := vw.search([]*c13Node{e.to}, nil, nil, atHead); m != nil {
+			leaves, wherePos = false, e.cond.Pos()
+		}
+	}
+	c.Check(leaves, "Get|first match ends the search", "T8 (search)", wherePos, "after a match the loop is left: the first dot with X > x determines the piece", "the search continues after a match: a later dot overrides the piece and x is interpolated on a piece that does not contain it")
+	// no candidate is passed over: the next iteration is reached only behind an edge implying that the
+	// current dot is not a match (X[i] <= x) or not an inner dot (i < 1, i > len-2)
+	notCand := map[string]bool{c13NegAtom(strict): true, c13NegAtom(weak): true, c13NegAtom(iGE1): true, c13NegAtom(iNE0): true, c13NegAtom(inner): true}
+	passes := func(e *c13VEdge) bool {
+		return e.kind == c13EdgeBranch && e.hasAny(notCand) && c13HasLoop(e.loops, sl.l)
+	}
+	n, path = vw.search(bodyN, passes, nil, atHead)
+	m, _ := vw.search(bodyN, nil, vw.atBlock(lf, head), func(n *c13Node) bool { return inDef[n] })
+	c.Check(n == nil && m == nil, "Get|every dot up to the match is tested", "T7 Pairing (loop)", loop.Pos(), "every iteration evaluates the match condition, goes on only when the current dot is not a candidate, and the default piece is used only when the loop is exhausted", "an iteration can go on to the next dot without the current one having failed the match test (path "+vw.describe(path, n)+"), or the loop can end without a match before all dots were seen: the first dot with X > x may be missed")
+
+	// interpolation
+	num := c31Form("0", "+x", "-X[p]")
+	den := c31Form("0", "+X[p+1]", "-X[p]")
+	div := "Div(" + num + ", " + den + ")"
+	mul := func(a, b string) string {
+		if b < a {
+			a, b = b, a
+		}
+		return "Mul(" + a + ", " + b + ")"
+	}
+	want := c31Form("0", "+"+mul(c31Form("0", "+Y[p]"), c31Form(decStr, "-"+div)), "+"+mul(c31Form("0", "+Y[p+1]"), c31Form("0", "+"+div)))
+	got := canonOf(interp[0].outcome)
+	c.Check(got == want, "Get|interpolation between neighbouring dots", "expression shape", interpStmt.Pos(),
+		"the result is Mul(Y[p], DecimalUnit-r) + Mul(Y[p+1], r) with r = Div(x-X[p], X[p+1]-X[p]): neighbouring dots p and p+1, weights summing to DecimalUnit, coordinates <= maxVal as first Mul/Div operands",
+		"the result is not the weighted sum of the two neighbouring dots' Y with r = (x-X[p])/(X[p+1]-X[p]) (got "+got+"): values between dots are not the linear interpolation")
+	n, path = vw.search(entry, nil, vw.atBlock(lf, head), func(n *c13Node) bool { return inAny[n] })
+	c.Check(n == nil, "Get|interpolation after the search", "T2 Dominates (loop)", interpStmt.Pos(), "the interpolation uses the piece index only after the search loop has run", "the interpolation is reachable without the search: "+vw.describe(path, n))
 }
